@@ -19,8 +19,17 @@ class _Spin(BaseException):
     """Raised out of the virtual loop when the code under test keeps it busy without letting time pass."""
 
 
-def run_scenario(outcomes, lifetimes, close_iter, cfg, horizon=30.0, tail=40.0, slow=3.0, runs=1, close_iter2=None, idle_close=False):
-    """One execution of the real ConnectionManager. Events are recorded by harness-owned fakes only."""
+_BYSTANDER_DONE = [False]
+
+
+def run_scenario(outcomes, lifetimes, close_iter, cfg, horizon=30.0, tail=40.0, slow=3.0, runs=1, close_iter2=None, idle_close=False, outside=False):
+    """One execution of the real ConnectionManager. Events are recorded by harness-owned fakes only.
+    outside: the manager object is constructed while ANOTHER event loop is the current one (set-up code before the application's loop)."""
+    if not _BYSTANDER_DONE[0]:
+        # once per process: another manager has lived (one connection, an outage, close() in the middle of the back-off sequence).
+        # Managers are independent objects: nothing of this may show in any later scenario.
+        _BYSTANDER_DONE[0] = True
+        run_scenario(["ok"] + ["fail"] * 6, [1] * 7, None, {"max_delay": 60, "threshold": 5, "sleep": 2}, horizon=40.0, tail=1.0)
     import han.meter_connection as mc
     from han.hdlc import HdlcFrameReader
     from .vloop import VLoop
@@ -96,10 +105,19 @@ def run_scenario(outcomes, lifetimes, close_iter, cfg, horizon=30.0, tail=40.0, 
                     ev.append(_ev("lost", loop.time(), i))
                     t.closed = True
                     p.connection_lost(OSError("lost"))
-            loop.call_later(life, lose)
+            if life == -2:          # lost at once, before the factory coroutine has even returned
+                lose()
+            else:
+                loop.call_later(life, lose)
         return t, p
 
+    other = None
+    if outside:
+        other = asyncio.new_event_loop()
+        asyncio.set_event_loop(other)
     cm = mc.ConnectionManager(factory)
+    if outside:
+        asyncio.set_event_loop(loop)
     cm.back_off_connect_error.max_delay = cfg["max_delay"]
     cm.connection_lost_back_off_threshold = cfg["threshold"]
     cm.connection_lost_back_off_sleep_sec = cfg["sleep"]
@@ -180,6 +198,8 @@ def run_scenario(outcomes, lifetimes, close_iter, cfg, horizon=30.0, tail=40.0, 
         except Exception:  # noqa: BLE001
             pass
         loop.close()
+        if other is not None:
+            other.close()
         if had_dt:
             mc.datetime = saved
     return ev, its, ret_iter[0], err[0]
@@ -194,32 +214,33 @@ def trace_of(outcomes, lifetimes, close_iter, cfg, origin, **kw):
             "error": err, "events": ev}, its, ret_it
 
 
-LIFETIMES = [(None,) * 6, (1, 1, 1, 1, 1, 1), (4, 1, None, 2, 2, 2), (0.5, 6, 0.5, 0.5, None, 1)]
+LIFETIMES = [(None,) * 6, (1, 1, 1, 1, 1, 1), (4, 1, None, 2, 2, 2), (0.5, 6, 0.5, 0.5, None, 1), (0, -2, 0, 1, -2, 0)]    # -2: lost before the factory returns
 CFGS = [{"max_delay": 4, "threshold": 3, "sleep": 5}, {"max_delay": 60, "threshold": 5, "sleep": 2}, {"max_delay": 1, "threshold": 1, "sleep": 1}]
 
 
 def _job(args):
-    import logging
-    logging.disable(logging.CRITICAL)
+    from .core import set_logging
+    set_logging(args)
     scripts, every = args
     out = []
     nexec = 0
-    for outcomes, lifetimes, cfg in scripts:
-        base, its, ret_it = trace_of(outcomes, lifetimes, None, cfg, "enum:noclose")
+    for sn, (outcomes, lifetimes, cfg) in enumerate(scripts):
+        kw = {"outside": True} if sn % 3 == 1 else {}        # a third of the scripts: manager built before its loop runs
+        base, its, ret_it = trace_of(outcomes, lifetimes, None, cfg, "enum:noclose", **kw)
         out.append(base)
         nexec += 1
         last = min(ret_it + 2, its)
         ks = range(0, last, every) if every > 0 else []
         for k in ks:
-            t, _, _ = trace_of(outcomes, lifetimes, k, cfg, f"enum:close@{k}")
+            t, _, _ = trace_of(outcomes, lifetimes, k, cfg, f"enum:close@{k}", **kw)
             out.append(t)
             nexec += 1
     return out, nexec
 
 
 def _long_job(args):
-    import logging
-    logging.disable(logging.CRITICAL)
+    from .core import set_logging
+    set_logging(args)
     cycles, pattern, cfg = args
     if pattern == "fail_ok_loss":
         outcomes = (["fail", "ok"] * cycles)
@@ -464,6 +485,11 @@ def run_c18(chk: Check) -> int:
             scripts.append((("ok", "ok") + ("fail",) * k + ("ok", "ok", "fail", "ok"), (1, 1) + (None,) * k + (20, 1, None, 3), cfg))
             scripts.append((("fail",) * k + ("ok", "ok", "ok") + ("fail",) * 2 + ("ok",), (None,) * k + (1, 1, 9) + (None,) * 2 + (2,), cfg))
             scripts.append((("ok", "fail", "ok") * 2 + ("fail",) * k + ("ok",), (1, None, 1) * 2 + (None,) * k + (30,), cfg))
+    for cfg in CFGS:        # losses whose gap is just inside the threshold, at sub-second phases (0.8 -> 5.1 with threshold 5)
+        thr = cfg["threshold"]
+        for first in (0.8, 0.95, 0.25, 1.0):
+            for gap in (thr - 0.7, thr - 0.05, thr - 0.5):
+                scripts.append((("ok",) * 6, (first, gap, 7.3, gap, first, 30), cfg))
     with mp.Pool(16) as pool:
         res = pool.map(_job_pacing, [scripts[j::16] for j in range(16)])
     traces2 += [t for r in res for t in r]
@@ -492,8 +518,8 @@ def run_c18(chk: Check) -> int:
 
 
 def _job_pacing(scripts):
-    import logging
-    logging.disable(logging.CRITICAL)
+    from .core import set_logging
+    set_logging(scripts)
     out = []
     for outcomes, lifetimes, cfg in scripts:
         t, _, _ = trace_of(outcomes, lifetimes, None, cfg, "rand:pacing", horizon=240.0)
@@ -517,8 +543,8 @@ TASK_CFG = {"max_delay": 4, "threshold": 3, "sleep": 5}      # must equal the co
 
 
 def _job_tasks(args):
-    import logging
-    logging.disable(logging.CRITICAL)
+    from .core import set_logging
+    set_logging(args)
     scripts, every = args
     out = []
     for outcomes, lifetimes in scripts:
@@ -607,8 +633,8 @@ def validate_against_task_model(chk: Check, every: int = 3, nscripts: int | None
 
 
 def _job_restart(args):
-    import logging
-    logging.disable(logging.CRITICAL)
+    from .core import set_logging
+    set_logging(args)
     out = []
     for outcomes, lifetimes, cfg, k1, k2, idle in args:
         t, _, _ = trace_of(outcomes, lifetimes, k1, cfg, f"restart:close@{k1},{k2},idle={idle}", horizon=12.0, runs=2, close_iter2=k2, idle_close=idle)
